@@ -218,6 +218,10 @@ macro_rules! exec_rational {
                     env.res(Pool::I, dst);
                     env.res(pid, d2);
                 }
+                "zeroize" => {
+                    zeroize::Zeroize::zeroize(&mut w.$pool[a]);
+                    env.res(pid, a);
+                }
                 "zeroes" => {
                     // zero (and the value itself) reached through the mixed operators, which build the fraction directly:
                     // k*m/m - k = 0/m', next to the canonical zero, and (v - k) + k next to v
@@ -512,6 +516,17 @@ fn exec_special(w: &mut World, op: &Op, rest: &str, env: &mut Env, pool: &str) {
             let h = sim_hash(&w.r[a]);
             let h2 = sim_hash(&w.r[b]);
             env.emit_u64("heq", (h == h2) as u64);
+        }
+        ("r", "static") => {
+            let bank = crate::statics::rbank();
+            let s = bank[op.n.unsigned_abs() as usize % bank.len()];
+            let dst = ix(op.dst);
+            match (op.form & 255) % 3 {
+                0 => w.r[dst] = s.clone(),
+                1 => w.r[dst].clone_from(s),
+                _ => w.r[dst] = s + RBig::ZERO,
+            }
+            env.res(Pool::R, dst);
         }
         ("r", "isint") => {
             env.emit_u64("isint", w.r[a].is_int() as u64);
